@@ -108,3 +108,15 @@ VARIANTS += [
       "normal: bool = ((rounds % 2) != 1) or (r + 1 < rounds)", "silent",
       ""),
 ]
+
+VARIANTS += [
+    V("unplaceable-game-ends-decoding", G,
+      "            y[day, away_idx] = -(home_idx + 1)\n            break\n",
+      "            y[day, away_idx] = -(home_idx + 1)\n            break\n"
+      "        else:\n            break\n", "fire", "D15.1",
+      "seed C15-unplaceable-game-ends-decoding"),
+    V("silent-unplaceable-game-is-skipped", G,
+      "            y[day, away_idx] = -(home_idx + 1)\n            break\n",
+      "            y[day, away_idx] = -(home_idx + 1)\n            break\n"
+      "        else:\n            continue\n", "silent"),
+]
